@@ -16,6 +16,7 @@ type vhState struct {
 	hasWK, hasRK, hasEN bool
 	mutations        int
 	disclosures      int
+	parents          []string
 }
 
 func (s *vhState) Count(ctx *Context) int  { return 0 }
@@ -52,6 +53,9 @@ func (s *vhState) get(ctx *Context, id string, getLock bool) (Map, error) {
 		return nil, NewNotFoundError(id)
 	case "!.parents":
 		// internal read of the parent list: nothing is handed to the caller
+		if s.parents != nil {
+			return Map{"!parents": s.parents}, nil
+		}
 		return nil, NewNotFoundError(id)
 	}
 	if IdProperty(id) {
@@ -196,5 +200,56 @@ func VH_C19_gate(op int) {
 		vassert(vimplies(vnot(readOK), err != nil), "refused-read-reports-error")
 		vassert(vimplies(vand(readOK, enabled), err == nil), "permitted-read-proceeds")
 	}
+	vreach("end")
+}
+
+// VH_C19_parent: an unprotected child whose parent is protected. Whatever the child
+// inherits from the parent is a disclosure of the parent's facts or rules, so it needs the
+// parent's read key and an enabled parent; the caller holds every right on the child.
+// op 0 inherited fact search, 1 inherited rule search, 2 event processing, 3 list rules
+// inherited, 4 condition query over the child's ancestors.
+func VH_C19_parent(op int) {
+	up := vhProtectedState()
+	here := &vhState{parents: []string{"up"}}
+	ctx := NewContext("c19")
+	reg := map[string]*Location{}
+	prov := NewSimpleLocationProvider(reg)
+	child, err := NewLocation(ctx, "here", here, nil)
+	vassume(err == nil)
+	parent, err := NewLocation(ctx, "up", up, nil)
+	vassume(err == nil)
+	child.Provider, parent.Provider = prov, prov
+	reg["here"], reg["up"] = child, parent
+	ctx.WriteKey = vsymStrN("ctx.writeKey", 6)
+	ctx.ReadKey = vsymStrN("ctx.readKey", 6)
+
+	readOK := vor(vor(!up.hasRK, up.rk == ""), ctx.ReadKey == up.rk)
+	enabled := vor(!up.hasEN, vor(up.en == "", vor(up.en == "yes", up.en == "true")))
+
+	d0, m0 := up.disclosures, up.mutations
+	switch op {
+	case 0:
+		_, err = child.SearchFacts(ctx, Map{"a": "?x"}, true)
+	case 1:
+		_, err = child.SearchRules(ctx, Map{"a": "b"}, true)
+	case 2:
+		_, cond := child.ProcessEvent(ctx, Map{"a": "b"})
+		err = nil
+		if cond != nil {
+			err = cond
+		}
+	case 3:
+		_, err = child.ListRules(ctx, true)
+	case 4:
+		q := PatternQuery{Pattern: map[string]interface{}{"a": "?x"}}
+		_, err = ExecQuery(ctx, q, child, QueryContext{}, QueryResult{Bss: []Bindings{{}}})
+	default:
+		vassume(false)
+	}
+	disclosed := up.disclosures > d0
+	vassert(vimplies(disclosed, vand(readOK, enabled)), "inherited-disclosure-only-with-parent-read-access")
+	vassert(up.mutations == m0, "parent-not-mutated")
+	vassert(vimplies(vand(readOK, enabled), disclosed), "permitted-inherited-read-reaches-parent")
+	_ = err
 	vreach("end")
 }
